@@ -1,12 +1,17 @@
 #!/bin/sh
 # tools/pair_status.sh <pair dir> [clean|slip] : the twenty quick checks against a scratch copy with clean.diff (default) or slip.diff
+# VERIF_CHECK=<path of a `check` script> runs a development copy of the machinery instead of /verif/check.
 dir=$(readlink -f "$1"); which=${2:-clean}
+check=${VERIF_CHECK:-/verif/check}
 d=$(mktemp -d /tmp/verif_pair_XXXX)
 cp -r /repo/moclo /repo/moclo-* "$d"/ 2>/dev/null
 (cd "$d" && git apply "$dir/$which.diff") || { echo "$(basename $dir) $which: does not apply"; rm -rf "$d"; exit 3; }
 out=""
 for c in C01 C02 C03 C04 C05 C06 C07 C08 C09 C10 C11 C12 C13 C14 C15 C16 C17 C18 C19 C20; do
-  res=$(VERIF_REPO="$d" VERIF_EVIDENCE_DIR="$d/ev" /verif/check "$c" --no-selftest 2>&1 | grep -v WARNING | grep -E "rule=|ANALYSIS" | head -1 | cut -c1-${COLS_MAX:-330})
+  raw=$(VERIF_REPO="$d" VERIF_EVIDENCE_DIR="$d/ev" "$check" "$c" --no-selftest 2>&1 | grep -v WARNING)
+  res=$(echo "$raw" | grep -E "rule=|ANALYSIS" | head -1 | cut -c1-${COLS_MAX:-330})
+  # a run that neither reports nor ends with its summary line crashed (a syntax error in the machinery, an import failure)
+  if [ -z "$res" ] && ! echo "$raw" | grep -q "violations=0"; then res="ANALYSIS-ERROR property=$c CRASH $(echo "$raw" | tail -1 | cut -c1-200)"; fi
   if [ -n "$res" ]; then out="$out
    $c $res"; fi
 done
